@@ -189,7 +189,7 @@ def r2_r3(prog, rep):
     # reseed schedule: counter starts at 1, +1 per generate, reseed when > 256  => exactly 256 generates per seed
     ce = u.func("crypto_entropy_read")
     thr = [(op, R) for b in ce.blocks.values() if b.cond is not None for op, L, R, _, _ in cond_atoms(b.cond, True) if sh(L) == "drbg.reseed_counter"]
-    rep.check(thr == [(">", ("c", 256))], "R2-constants", "reseed when reseed_counter > 256 (counter 1..256 => 256 generate calls per seed)", ce.loc, "%s" % thr, function=ce.name, construct="interval")
+    rep.check((">", ("c", 256)) in thr and all(t in ((">", ("c", 256)), (">=", ("c", 257))) for t in thr), "R2-constants", "reseed when reseed_counter > 256 (counter 1..256 => 256 generate calls per seed)", ce.loc, "%s" % thr, function=ce.name, construct="interval")
 
 
 def r4(prog, rep):
